@@ -178,6 +178,11 @@ pub fn generate(rng: &mut Rng, tier: Tier, stats: &mut GenStats) -> Scenario {
         }
         lazy = true;
     }
+    // a base above the tree, up to the root of the file system (single walks only: the schedules
+    // above re-spell bases)
+    if nw == 1 {
+        maybe_above(&mut g, &mut walkers[0], 10);
+    }
     Scenario {
         prop: "C02".into(),
         seed: 0,
